@@ -17,8 +17,14 @@ pub struct Run {
     pub sub: usize,
     pub off: u16,
     pub extra: u16,
-    /// sinc only: (after this many calls, new size = 1 + frac*(chunk-1)/65535); applied cyclically
+    /// sinc only: (after this many calls, new size = 1 + frac*(chunk-1)/65535); applied cyclically;
+    /// entries with 0 calls in between are applied back to back
     pub schedule: Vec<(u8, u16)>,
+    /// input buffers: 0 exactly input_frames_next() frames, 1 a few frames more, 2 always the
+    /// buffer from input_buffer_allocate (input_frames_max() frames); the surplus holds the
+    /// continuation of the signal and must not influence the output
+    #[serde(default)]
+    pub in_mode: u8,
 }
 
 #[derive(Clone, Debug, Serialize, Deserialize)]
@@ -90,6 +96,7 @@ fn stream<T: SampleX>(cfg: &Config, r: &Run, sig: &Signal, want_out: usize) -> R
     let mut out: Vec<T> = Vec::with_capacity(want_out + 4096);
     let mut inbuf: Vec<Vec<T>> = vec![Vec::new()];
     let mut outbuf: Vec<Vec<T>> = res.out_alloc(true);
+    let in_max = res.in_max();
     let mut pos: u64 = 0;
     let mut calls = 0usize;
     let mut sched_i = 0usize;
@@ -98,21 +105,39 @@ fn stream<T: SampleX>(cfg: &Config, r: &Run, sig: &Signal, want_out: usize) -> R
     let guard = 4_000_000usize;
     while out.len() < want_out && calls < guard {
         if cfg.kind.is_sinc() && !r.schedule.is_empty() {
-            let (after, frac) = r.schedule[sched_i % r.schedule.len()];
-            if since >= after as u32 {
+            let mut burst = 0;
+            loop {
+                let (after, frac) = r.schedule[sched_i % r.schedule.len()];
+                if since < after as u32 || burst >= 3 {
+                    break;
+                }
                 let size = 1 + (frac as usize * (cfg.chunk - 1)) / 65535;
                 res.set_chunk(size).map_err(|e| format!("set_chunk_size({}) failed: {}", size, e))?;
                 if calls > 0 {
                     changes += 1;
                 }
                 sched_i += 1;
+                burst += 1;
+                // a following entry with 0 calls in between is applied immediately
+                let next_after = r.schedule[sched_i % r.schedule.len()].0;
+                if next_after != 0 {
+                    since = 0;
+                    break;
+                }
+            }
+            if burst > 0 {
                 since = 0;
             }
         }
         let need = res.in_next();
         let v = &mut inbuf[0];
         v.clear();
-        for n in 0..need {
+        let have = match r.in_mode % 3 {
+            0 => need,
+            1 => need + 1 + (calls % 7),
+            _ => need.max(in_max),
+        };
+        for n in 0..have {
             v.push(T::of64(sig.value(0, pos + n as u64)));
         }
         let on = res.out_next();
@@ -228,7 +253,8 @@ fn run_t<T: SampleX>(c0: &Case) -> Outcome {
     o.maxi(&format!("worst_diff_over_tol:{}:{}{}", fam, if c.cfg.f32 { "f32" } else { "f64" }, if nearest { ":nearest" } else { "" }), worst);
     o.count("frames_compared", n as u64);
     o.count("nearest_tie_frames", ties);
-    let differ = ca.kind != cb.kind || ca.chunk != cb.chunk || !c.a.schedule.is_empty() || !c.b.schedule.is_empty();
+    let differ = ca.kind != cb.kind || ca.chunk != cb.chunk || !c.a.schedule.is_empty() || !c.b.schedule.is_empty() || c.a.in_mode % 3 != c.b.in_mode % 3;
+    o.class(format!("input-buffers:{}-{}", c.a.in_mode % 3, c.b.in_mode % 3));
     let sched_ok = (c.a.schedule.is_empty() || !ca.kind.is_sinc() || sa.chunk_changes_after_first >= 1) && (c.b.schedule.is_empty() || !cb.kind.is_sinc() || sb.chunk_changes_after_first >= 1);
     if sa.chunk_changes_after_first + sb.chunk_changes_after_first > 0 {
         o.class("mid-stream-chunk-changes");
@@ -239,12 +265,12 @@ fn run_t<T: SampleX>(c0: &Case) -> Outcome {
 
 fn run_strategy(max_chunk: usize, sched: bool) -> BoxedStrategy<Run> {
     let schedule = if sched {
-        prop_oneof![2 => Just(vec![]), 1 => proptest::collection::vec((0u8..4, any::<u16>()), 1..6)].boxed()
+        prop_oneof![2 => Just(vec![]), 1 => proptest::collection::vec((prop_oneof![2 => Just(0u8), 3 => 1u8..4], any::<u16>()), 1..6)].boxed()
     } else {
         Just(vec![]).boxed()
     };
-    (any::<bool>(), 0u8..3, crate::cfg::chunk_strategy(max_chunk), 1usize..=4, any::<u16>(), any::<u16>(), schedule)
-        .prop_map(|(fixed_out, fft_variant, chunk, sub, off, extra, schedule)| Run { fixed_out, fft_variant, chunk, sub, off, extra, schedule })
+    (any::<bool>(), 0u8..3, crate::cfg::chunk_strategy(max_chunk), 1usize..=4, any::<u16>(), any::<u16>(), schedule, 0u8..3)
+        .prop_map(|(fixed_out, fft_variant, chunk, sub, off, extra, schedule, in_mode)| Run { fixed_out, fft_variant, chunk, sub, off, extra, schedule, in_mode })
         .boxed()
 }
 
@@ -254,7 +280,7 @@ impl Property for C05 {
         "C05"
     }
     fn rule(&self) -> String {
-        "cases = one parameter set (polynomial / sinc / FFT family, f32 or f64, constant ratio), one input (1-2 tones + noise at 1 % so a lost, repeated or stale frame moves the output by >= 1e-3 of peak), two runs differing in chunk size (1..=4096, small and large mixed), in the FixedIn/FixedOut(/InOut) variant, or in a mid-stream set_chunk_size schedule (sinc); the common prefix of the two concatenated outputs is compared frame by frame (FFT: bit-exact; others within the position-rounding model 8*(i+1)*ulp(idx_max)*slope). non-trivial = the two runs differ (chunk, variant or schedule), >= 2000 common frames, and a schedule performed >= 1 size change after the first call. distinct = distinct case JSON digest.".into()
+        "cases = one parameter set (polynomial / sinc / FFT family, f32 or f64, constant ratio), one input (1-2 tones + noise at 1 % so a lost, repeated or stale frame moves the output by >= 1e-3 of peak), two runs differing in chunk size (1..=4096, small and large mixed), in the FixedIn/FixedOut(/InOut) variant, in a mid-stream set_chunk_size schedule (sinc; also several calls back to back), or in how much longer than required the input buffers are (exact / a few frames / always input_frames_max()); the common prefix of the two concatenated outputs is compared frame by frame (FFT: bit-exact; others within the position-rounding model 8*(i+1)*ulp(idx_max)*slope). non-trivial = the two runs differ (chunk, variant or schedule), >= 2000 common frames, and a schedule performed >= 1 size change after the first call. distinct = distinct case JSON digest.".into()
     }
     fn assumptions(&self) -> Vec<String> {
         vec![
